@@ -59,9 +59,9 @@ class Ctx:
         return fn
 
     # -- rule helpers -----------------------------------------------------------------------------
-    def gate(self, rule, fn, accept_pts, preds, kill_names=(), accept_desc="accept"):
+    def gate(self, rule, fn, accept_pts, preds, kill_names=(), accept_desc="accept", accept_edge=None):
         """preds: list of (label, pattern, want).  Every path entry→accept must establish each."""
-        if not accept_pts:
+        if not accept_pts and accept_edge is None:
             self.bad(rule, "%s:no-accept-point" % fn.name, "no %s point found in %s" % (accept_desc, fn.name))
             return
         import re as _re
@@ -85,10 +85,10 @@ class Ctx:
             if len(spec) == 2:
                 label, pattern = spec
                 want = "one of " + "; ".join("%s=%s" % (p, w) for p, w in pattern)
-                mon = GateMonitor(accept_pts, pattern, None, kills_for(pattern))
+                mon = GateMonitor(accept_pts, pattern, None, kills_for(pattern), accept_edge=accept_edge)
             else:
                 label, pattern, want = spec
-                mon = GateMonitor(accept_pts, pattern, want, kills_for(pattern))
+                mon = GateMonitor(accept_pts, pattern, want, kills_for(pattern), accept_edge=accept_edge)
             mon.label = label
             s = Search(fn, mon)
             v = s.run(False)
